@@ -13,7 +13,7 @@ HOSTILE = [b"contract Broken { function (", b"\x00\x9f\x92\x96\x00\xff\xfe\n\x00
 
 def contents():
     d = os.path.join(ROOT, "corpus", "dirwalk")
-    return {c: open(os.path.join(d, c + ".sol"), "rb").read() for c in ("c1", "c2", "c3", "c4", "c5", "c6")}
+    return {c: open(os.path.join(d, c + ".sol"), "rb").read() for c in ("c1", "c2", "c3", "c4", "c5", "c6", "c8")}
 
 
 def eligible(name):
@@ -105,6 +105,17 @@ def run_trees(chk, hb, sb, trees, catalogue, workdir):
                 dblobs.append(open(rp, "rb").read() if os.path.exists(rp) else None)
             if dblobs[0] != dblobs[1] and not differs:
                 differs = "order-of-a-repeated-pattern-name"
+            # the same run once more in a working directory that holds the (longer) report of an earlier run
+            scwd = os.path.join(base, "scwd")
+            os.makedirs(scwd)
+            with open(os.path.join(scwd, "solstat_report.md"), "wb") as f:
+                f.write((blobs[0] or b"") * 2 + b"\n- Earlier.sol:1\n" * 30)
+            code, _err = bindrive.run_solstat(sb, scwd, ["--path", a])
+            ok = ok and code == 0
+            srp = os.path.join(scwd, "solstat_report.md")
+            sblob = open(srp, "rb").read() if os.path.exists(srp) else None
+            if sblob != blobs[0] and not differs:
+                differs = "a-report-left-by-an-earlier-run"
             if blobs[0] is not None:
                 with open(os.path.join(reports, "w%05d.md" % ti), "wb") as f:
                     f.write(blobs[0])
